@@ -227,7 +227,11 @@ func runRecords(out string, seed int64, n int) {
 		}
 	}
 	// stream: FetchResponseBlock, all versions, encode -> decode -> re-encode (-> decode)
-	for i := 0; i < n; i++ {
+	nf := 48
+	if n > 200 {
+		nf = n
+	}
+	for i := 0; i < nf; i++ {
 		v := int16(i % 12)
 		blk := g.FetchBlock(v, i%7 == 6)
 		hasEmpty := false
